@@ -102,7 +102,7 @@ def run(tier):
         recs_av = [DV(i, ctx.rnd.choice(["", "a", "é"]), bool(i % 2), 1.5, b"\x00" * i, _generated=gen.GEN) for i in range(nrec)]
         streams = gen.sample_streams(ctx.rnd, 1, (nrec, nrec))[0] if nrec else []
         for codec in CODEC_EXT:
-            for container in ("stream", "avro", "json", "text", "garbage", "empty"):
+            for container in ("stream", "avro", "json", "text", "garbage", "empty", "junkmagic"):
                 if container == "json" and codec != "none":
                     continue  # the property names record stream and Avro as the compressed containers; JSON is exercised uncompressed only
                 recs = recs_av if container in ("avro",) else (streams if container == "stream" else recs_av)
@@ -133,7 +133,9 @@ def run(tier):
                         blob = b""
                     url_r = url_w
                 else:
-                    plain = {"text": b"<t/det n=1 s='a'>\n<t/det n=2 s='b'>\n", "garbage": bytes(range(7, 200)) * 3, "empty": b""}[container]
+                    plain = {"text": b"<t/det n=1 s='a'>\n<t/det n=2 s='b'>\n", "garbage": bytes(range(7, 200)) * 3, "empty": b"",
+                             "junkmagic": ctx.rnd.choice([b"RECORDSTREAM\nhello\n", b"RECORDSTREAM\n" + b"\x00" * 6, b"abc" + b"RECORDSTREAM\n" + b"xyz",
+                                                         b"RECORDSTREAM\n" + b"these bytes are not a record stream"]) if seq else b"RECORDSTREAM\nhello\n"}[container]
                     blob = std_compress(codec, plain) if container != "empty" or codec == "none" else std_compress(codec, b"")
                     if container == "empty":
                         blob = b"" if codec == "none" else blob
@@ -148,6 +150,46 @@ def run(tier):
                 namings = [("ext", 19, lambda: RecordReader(url_r)), ("neutral", 19, lambda: RecordReader(neutral)),
                            ("fileobj", 19, lambda: RecordReader(fileobj=io.BytesIO(blob))),
                            ("fileobj", 19, lambda: RecordReader(fileobj=open(neutral, "rb")))]
+                # standard input, anonymous and named by a URL scheme
+                import sys as _sys
+
+                def with_stdin(url):
+                    class _In:
+                        def __init__(self):
+                            self.buffer = io.BufferedReader(io.BytesIO(blob))
+
+                    def opener():
+                        saved = _sys.stdin
+                        _sys.stdin = _In()
+                        try:
+                            rd = RecordReader(url) if url is not None else RecordReader()
+                            return list(rd)
+                        finally:
+                            _sys.stdin = saved
+                    return opener
+                namings.append(("stdin", 19, with_stdin(None)))
+                namings.append(("stdin", 19, with_stdin("-")))
+                if container in ("stream", "avro"):
+                    namings.append(("stdin_scheme", 19, with_stdin({"stream": "stream://-", "avro": "avro://-"}[container])))
+                elif container != "json":
+                    namings.append(("stdin_scheme", 19, with_stdin("stream://-")))
+                # a file object positioned behind a preamble that is not part of the source
+                pre = b"PREAMBLE-NOT-PART-OF-THE-SOURCE" * 3
+
+                def at_offset(kind):
+                    def opener():
+                        if kind == "bytesio":
+                            fo = io.BytesIO(pre + blob)
+                        else:
+                            pth = os.path.join(tmp, "withpreamble")
+                            with open(pth, "wb") as fh:
+                                fh.write(pre + blob)
+                            fo = open(pth, "rb", buffering=0)
+                        fo.seek(len(pre))
+                        return RecordReader(fileobj=fo)
+                    return opener
+                namings.append(("fileobj_offset", 19, at_offset("bytesio")))
+                namings.append(("fileobj_offset", 19, at_offset("rawfile")))
                 for k in ((1, 2, 3, 4) if thorough or seq == 0 else (1, 3)):
                     namings.append(("fileobj", k, (lambda k=k: RecordReader(fileobj=Dribble(blob, k)))))
                 for naming, peeklen, opener in namings:
@@ -155,7 +197,7 @@ def run(tier):
                     outcome = how
                     if how == "records" and got != expect:
                         outcome = "wrong-records"
-                    if how == "records" and container in ("text", "garbage", "empty"):
+                    if how == "records" and container in ("text", "garbage", "empty", "junkmagic"):
                         outcome = "wrong-records"
                     cases.append({"codec": codec, "container": container, "naming": naming, "peeklen": peeklen, "outcome": outcome, "exc": exc,
                                   "written": written and naming == "ext", "std_decompress_ok": std_ok, "nrec": len(recs)})
